@@ -786,17 +786,20 @@ func (s *clientSocket) registerAckHandler(f any, timeout time.Duration) (id uint
 		delete(s.acks, id)
 		s.acksMu.Unlock()
 
-		remove := func(slice []sendBufferItem, s int) []sendBufferItem {
-			return append(slice[:s], slice[s+1:]...)
-		}
-
+		// Do not remove the elements while ranging over the slice. The indexes shift, and with
+		// more than one packet to remove (a binary event is a packet for the header and a packet
+		// for each attachment) the slice operation goes out of range. This function runs on the
+		// goroutine of the timer, which recovers from panics: the mutex would stay locked.
 		s.sendBufferMu.Lock()
-		for i, packet := range s.sendBuffer {
+		var remaining []sendBufferItem
+		for _, packet := range s.sendBuffer {
 			if packet.ackID != nil && *packet.ackID == id {
 				s.debug.Log("Removing packet with ack ID", id)
-				s.sendBuffer = remove(s.sendBuffer, i)
+				continue
 			}
+			remaining = append(remaining, packet)
 		}
+		s.sendBuffer = remaining
 		s.sendBufferMu.Unlock()
 	})
 	if err != nil {
